@@ -8,10 +8,10 @@ open LunarVerif.FlowGraph LunarVerif.FlowExec
 
 /-! ### shape invariants of reference results -/
 
-/-- `pending` only together with `stop`; `stop` only without error -/
-def SOk (s : SRes) : Prop := (s.pending = true → s.stop.isSome = true) ∧ (s.stop.isSome = true → s.err = none)
+/-- `stop` only without error -/
+def SOk (s : SRes) : Prop := s.stop.isSome = true → s.err = none
 
-theorem sok_default : SOk {} := ⟨by simp, by simp⟩
+theorem sok_default : SOk {} := by simp [SOk]
 
 theorem sok_swalkList (rec : String → SRes) (h : ∀ t, SOk (rec t)) : ∀ ts, SOk (swalkList rec ts)
   | [] => sok_default
@@ -23,61 +23,36 @@ theorem sok_swalkList (rec : String → SRes) (h : ∀ t, SOk (rec t)) : ∀ ts,
     split
     · exact ht
     · split
-      · rename_i hs
-        exact ⟨fun _ => hs, fun _ => ht.2 hs⟩
-      · rename_i he hs
-        refine ⟨fun hp => ?_, fun hst => ih.2 hst⟩
-        simp only [Bool.or_eq_true] at hp
-        rcases hp with hp | hp
-        · exact absurd (ht.1 hp) hs
-        · exact ih.1 hp
+      · exact ht
+      · exact fun hst => ih hst
 
 theorem sok_swalk (f : SFlow) (o : Oracle) (d : Dir) : ∀ fuel k, SOk (swalk f o d fuel k)
-  | 0, _ => ⟨by simp [swalk], by simp [swalk]⟩
+  | 0, _ => by simp [SOk, swalk]
   | fuel + 1, k => by
     unfold swalk
     simp only
     split
-    · exact ⟨by simp, by simp⟩
+    · simp [SOk]
     · split
-      · exact ⟨by simp, by simp⟩
-      · have := sok_swalkList (swalk f o d fuel) (sok_swalk f o d fuel) (succs (f.conns d) k (o f.name k d).name)
-        exact this
+      · simp [SOk]
+      · exact sok_swalkList (swalk f o d fuel) (sok_swalk f o d fuel) (succs (f.conns d) k (o f.name k d).name)
 
 /-! ### the relation between an engine walk and a reference walk -/
 
-/-- `hasRes k`: the answering processor `k` has a node in the response direction. -/
+/-- `hasRes k`: the answering processor `k` has a node in the response direction.  Events always
+    agree; an answering processor without response node makes the engine fail with `respNode`
+    (finding F04c) where the reference stops. -/
 def Rel (hasRes : String → Bool) (m : WalkRes) (s : SRes) : Prop :=
-  s.pending = true ∨
-  (m.trace = s.trace ∧
+  m.trace = s.trace ∧
     match s.stop with
     | some k => if hasRes k then (m.sc = some k ∧ m.err = none) else (m.err = some .respNode ∧ m.sc = none)
-    | none => m.sc = none ∧ m.err = s.err)
-
-theorem walkEdges_nomatch (rec : String → WalkRes) (name : String) :
-    ∀ (es : List Edge) (sc : Option String), matchT name es = [] → walkEdges rec name es sc = { sc := sc }
-  | [], sc, _ => rfl
-  | e :: es, sc, h => by
-    rw [matchT_cons] at h
-    have h2 : matchT name es = [] := (List.append_eq_nil_iff.mp h).2
-    have h1 : matchT name [e] = [] := (List.append_eq_nil_iff.mp h).1
-    unfold walkEdges
-    cases ht : e.target with
-    | stream n a => simp only; exact walkEdges_nomatch rec name es sc h2
-    | node t =>
-      simp only
-      by_cases hc : e.cond = name
-      · exfalso
-        simp [matchT, ht, hc] at h1
-      · have : (e.cond == name) = false := by simpa using hc
-        simp only [this]
-        exact walkEdges_nomatch rec name es sc h2
+    | none => m.sc = none ∧ m.err = s.err
 
 theorem loop_rel (hasRes : String → Bool) (recM : String → WalkRes) (recS : String → SRes) (name : String)
     (hsok : ∀ t, SOk (recS t)) :
     ∀ es : List Edge, (∀ e ∈ es, ∀ t, e.target = .node t → Rel hasRes (recM t) (recS t)) →
       Rel hasRes (walkEdges recM name es none) (swalkList recS (matchT name es))
-  | [], _ => Or.inr ⟨rfl, by simp [walkEdges, swalkList, matchT]⟩
+  | [], _ => ⟨rfl, by simp [walkEdges, swalkList, matchT]⟩
   | e :: es, hrec => by
     have ih := loop_rel hasRes recM recS name hsok es (fun e' he' => hrec e' (List.mem_cons_of_mem _ he'))
     rw [matchT_cons]
@@ -93,69 +68,41 @@ theorem loop_rel (hasRes : String → Bool) (recM : String → WalkRes) (recS : 
         rw [hm]
         simp only [hb, if_true, List.singleton_append]
         unfold swalkList
-        have hrel := hrec e (List.mem_cons_self ..) t ht
+        obtain ⟨htr, hrest⟩ := hrec e (List.mem_cons_self ..) t ht
         have hok := hsok t
         simp only
-        -- case analysis on the reference result of the followed branch
         cases herr : (recS t).err with
         | some er =>
           have hstop : (recS t).stop = none := by
             cases hs : (recS t).stop with
             | none => rfl
-            | some k' => have := hok.2 (by simp [hs]); simp [herr] at this
-          have hpend : (recS t).pending = false := by
-            cases hp : (recS t).pending with
-            | false => rfl
-            | true => have := hok.1 hp; simp [hstop] at this
-          rcases hrel with hrel | ⟨htr, hrest⟩
-          · simp [hpend] at hrel
-          · rw [hstop] at hrest
-            have hme : (recM t).err = some er := by rw [hrest.2, herr]
-            simp only [herr, hme, Option.isSome_some, if_true]
-            exact Or.inr ⟨htr, by rw [hstop]; exact ⟨hrest.1, by rw [hme, herr]⟩⟩
+            | some k' => have := hok (by simp [hs]); simp [herr] at this
+          rw [hstop] at hrest
+          have hme : (recM t).err = some er := by rw [hrest.2, herr]
+          simp only [hme, Option.isSome_some, if_true]
+          exact ⟨htr, by rw [hstop]; exact ⟨hrest.1, by rw [hme, herr]⟩⟩
         | none =>
-          simp only [herr, Option.isSome_none, Bool.false_eq_true, if_false]
+          simp only [Option.isSome_none, Bool.false_eq_true, if_false]
           cases hs : (recS t).stop with
           | some k' =>
             simp only [Option.isSome_some, if_true]
-            rcases hrel with hrel | ⟨htr, hrest⟩
-            · exact Or.inl (by simp [hrel])
-            · rw [hs] at hrest
-              simp only at hrest
-              by_cases hne : matchT name es = []
-              · -- nothing left to follow
-                by_cases hr : hasRes k' = true
-                · rw [if_pos hr] at hrest
-                  have hme : (recM t).err = none := hrest.2
-                  simp only [hme, Option.isSome_none, Bool.false_eq_true, if_false]
-                  rw [hrest.1, walkEdges_nomatch recM name es (some k') hne]
-                  refine Or.inr ⟨by simp [htr], ?_⟩
-                  simp [hs, hr]
-                · rw [if_neg hr] at hrest
-                  have hme : (recM t).err = some .respNode := hrest.1
-                  simp only [hme, Option.isSome_some, if_true]
-                  refine Or.inr ⟨htr, ?_⟩
-                  simp [hs, hr, hrest]
-              · refine Or.inl ?_
-                cases hl : matchT name es with
-                | nil => exact absurd hl hne
-                | cons a as => simp
+            rw [hs] at hrest
+            simp only at hrest
+            by_cases hr : hasRes k' = true
+            · rw [if_pos hr] at hrest
+              simp only [hrest.2, hrest.1, Option.isSome_none, Option.isSome_some, Bool.false_eq_true, if_false, if_true]
+              exact ⟨htr, by simp [hs, hr, hrest.1, hrest.2]⟩
+            · rw [if_neg hr] at hrest
+              simp only [hrest.1, Option.isSome_some, if_true]
+              exact ⟨htr, by simp [hs, hr, hrest.1, hrest.2]⟩
           | none =>
             simp only [Option.isSome_none, Bool.false_eq_true, if_false]
-            have hpend : (recS t).pending = false := by
-              cases hp : (recS t).pending with
-              | false => rfl
-              | true => have := hok.1 hp; simp [hs] at this
-            rcases hrel with hrel | ⟨htr, hrest⟩
-            · simp [hpend] at hrel
-            · rw [hs] at hrest
-              simp only at hrest
-              have hme : (recM t).err = none := by rw [hrest.2, herr]
-              simp only [hme, Option.isSome_none, Bool.false_eq_true, if_false, hrest.1]
-              rcases ih with ih | ⟨itr, irest⟩
-              · exact Or.inl (by simp [ih])
-              · refine Or.inr ⟨by simp [htr, itr], ?_⟩
-                simpa using irest
+            rw [hs] at hrest
+            simp only at hrest
+            have hme : (recM t).err = none := by rw [hrest.2, herr]
+            simp only [hme, Option.isSome_none, Bool.false_eq_true, if_false, hrest.1]
+            obtain ⟨itr, irest⟩ := ih
+            exact ⟨by simp [htr, itr], by simpa using irest⟩
       · have hm : matchT name [e] = [] := by simp [matchT, ht, hc]
         have hb : (e.cond == name) = false := by simpa using hc
         simpa [hm, hb] using ih
@@ -197,18 +144,16 @@ theorem sflowOf_conns (rep : FlowRep) (d : Dir) : (sflowOf rep).conns d = rep.co
   cases d <;> rfl
 
 theorem rel_cons {hasRes : String → Bool} {m : WalkRes} {s : SRes} (ev : Event) (h : Rel hasRes m s) :
-    Rel hasRes { m with trace := ev :: m.trace } { s with trace := ev :: s.trace } := by
-  rcases h with h | ⟨htr, hrest⟩
-  · exact Or.inl h
-  · exact Or.inr ⟨by simp [htr], hrest⟩
+    Rel hasRes { m with trace := ev :: m.trace } { s with trace := ev :: s.trace } :=
+  ⟨by simp [h.1], h.2⟩
 
 /-- **Walk refinement.**  From any node of a built direction, the engine's walk and the reference
-    walk are related by `Rel` (equal unless the reference run is in the class of F04b; an answering
-    processor without response node makes the engine fail with `respNode`). -/
+    walk are related by `Rel` (equal events; an answering processor without response node makes the
+    engine fail with `respNode`). -/
 theorem walk_rel {rep : FlowRep} {f : Flow} (hb : Built rep f) (o : Oracle) (d : Dir) :
     ∀ (fuel : Nat) (k : String), ((f.dir d).find k).isSome = true →
       Rel (mentioned rep.res) (walk f o d fuel k) (swalk (sflowOf rep) o d fuel k)
-  | 0, k, _ => Or.inr ⟨rfl, by simp [walk, swalk]⟩
+  | 0, k, _ => ⟨rfl, by simp [walk, swalk]⟩
   | fuel + 1, k, hk => by
     unfold walk swalk
     cases hn : (f.dir d).find k with
@@ -219,7 +164,7 @@ theorem walk_rel {rep : FlowRep} {f : Flow} (hb : Built rep f) (o : Oracle) (d :
       cases hoe : (o f.name k d).err with
       | true =>
         simp only [if_true]
-        exact Or.inr ⟨rfl, by simp⟩
+        exact ⟨rfl, by simp⟩
       | false =>
         simp only [Bool.false_eq_true, if_false]
         by_cases hearly : ((o f.name k d).early && d == .req) = true
@@ -229,13 +174,13 @@ theorem walk_rel {rep : FlowRep} {f : Flow} (hb : Built rep f) (o : Oracle) (d :
           | none =>
             rw [hfr] at hres
             simp only
-            refine Or.inr ⟨rfl, ?_⟩
+            refine ⟨rfl, ?_⟩
             have : mentioned rep.res k = false := by simpa using hres.symm
             simp [this]
           | some nr =>
             rw [hfr] at hres
             simp only
-            refine Or.inr ⟨rfl, ?_⟩
+            refine ⟨rfl, ?_⟩
             have : mentioned rep.res k = true := by simpa using hres.symm
             simp [this]
         · simp only [hearly, Bool.false_eq_true, if_false]
